@@ -271,7 +271,14 @@ def rstatus_http_status_table(ctx):
     http_status_table(ctx, "C11.STATUS", ('too_many_requests',))
 
 
-RULES = [r1_gate, r2_hold_until_done, r3_no_forget, r4_limit_provenance, r5_ws_close_reasons, r6_vetted_transport_options, rcfg_config_verbatim, rstatus_http_status_table]
+
+def rspawn_vetted_spawn_sites(ctx):
+    """work is detached only at the vetted sites"""
+    from .common import vetted_spawns
+    vetted_spawns(ctx, "C11.SPAWN")
+
+
+RULES = [r1_gate, r2_hold_until_done, r3_no_forget, r4_limit_provenance, r5_ws_close_reasons, r6_vetted_transport_options, rcfg_config_verbatim, rstatus_http_status_table, rspawn_vetted_spawn_sites]
 
 LEVEL_TEXT = (
     "Structural necessary conditions of the connection cap decided from the type-checked program: the acquire arm "
